@@ -1035,8 +1035,10 @@ pub fn op_release(who: usize) -> bool {
     drop(o);
     w(|w| {
         w.objs[id].in_flight = false;
-        let alive = w.objs[id].alive;
-        if !alive && w.handles == 0 && w.objs[id].detach == 0 {
+        // kept = still alive AND still the pool's (a concurrent retain() may
+        // have handed it to its caller in the meantime)
+        let alive = w.objs[id].alive && w.objs[id].loc == Loc::Pool;
+        if !w.objs[id].alive && w.handles == 0 && w.objs[id].detach == 0 {
             // no pool left to return to: the object simply goes away
             w.objs[id].destroyed_in = Some(OpKind::DropPool);
         }
